@@ -489,6 +489,11 @@ func (r *pairRun) afterStep() {
 			r.fail("C06", "malformed-frame", "frame:"+keyOf(err), "frame #%d emitted by %s is not well-formed: %v\n  bytes: %x", f.Seq, f.From.Name, err, f.Data)
 		}
 	}
+	if r.has('m') {
+		if err := r.w.AliasErr(); err != nil {
+			r.fail("C06", "frame-modified-after-send", "frame-modified-after-send", "%v", err)
+		}
+	}
 	if r.has('s') {
 		for _, p := range [][2]*side{{&r.a, &r.b}, {&r.b, &r.a}} {
 			rd, wr := p[0], p[1]
